@@ -370,9 +370,13 @@ class SNum:
         raise Unsupported("symbolic number used as an index/range bound")
 
     def __round__(self, nd=None):
-        if nd not in (None, 0):
-            raise Unsupported("round(x, ndigits) on symbolic")
-        return fn_round_half_even(self)
+        if nd in (None, 0):
+            return fn_round_half_even(self)
+        if not isinstance(nd, int):
+            raise Unsupported("round(x, ndigits) with symbolic ndigits")
+        scale = 10 ** nd  # round-half-even at the given decimal digit (exact-decimal idealisation of float round)
+        r = fn_round_half_even(self * scale)
+        return SNum(_real(r.t) / scale, self.deg) if nd > 0 else SNum(_real(r.t) * (10 ** (-nd)), self.deg)
 
     def __floor__(self):
         return fn_floor(self)
